@@ -902,7 +902,7 @@ def gen_branching(rng):
     return {"comps": comps, "end": rng.choice([2, 3, 5]) * maxstep, "link_order": lo}
 
 
-def gen_ring_staggered(rng):
+def gen_ring_staggered(rng, kind=None, src_late=None):
     """A delay-resolved ring (or a delayed plain link) whose components start at DIFFERENT times: the consumer behind
     the delay adapter(s) starts later (or earlier) than its source.  The lower bound of delayed requests is the
     SOURCE's start (the time of the info the source delivers), whoever asks."""
@@ -913,7 +913,7 @@ def gen_ring_staggered(rng):
     total = sum(max(c["steps"]) for c in comps)
     k0 = rng.randrange(n)           # the link into k0 carries the whole delay
     d = total + rng.choice([0, 0, unit])
-    kind = rng.choice(["fixed", "fixed", "split", "topull"])
+    kind = kind or rng.choice(["fixed", "fixed", "split", "topull"])
     for k in range(n):
         src = (k - 1) % n
         if k == k0:
@@ -932,7 +932,7 @@ def gen_ring_staggered(rng):
         comps[k]["inputs"].append({"src": [src, 0], "chain": ch})
     # the consumer behind the delay starts later than its source (sometimes the other way round)
     off = unit * rng.choice([2, 4, 9, 1])
-    if rng.random() < 0.75:
+    if (rng.random() < 0.75) if src_late is None else not src_late:
         comps[k0]["start"] = off
     else:
         comps[(k0 - 1) % n]["start"] = off
@@ -1053,3 +1053,122 @@ def gen_relay_twice(rng):
     order = list(range(len(comps)))
     rng.shuffle(order)
     return {"comps": permute(comps, order), "end": scc * rng.choice([2, 3, 4])}
+
+
+def with_listeners(rng, case, p=0.5):
+    """turns some inputs of time components into PUSH-BASED slots (sdk CallbackInput) which the component samples at its
+    step times all the same.  Only where the link may carry notifications (schedule._check_dead_links): the source is a
+    time component.  The scheduler and the model treat such an input like any other."""
+    for c in case["comps"]:
+        if c["kind"] != "T":
+            continue
+        for inp in c["inputs"]:
+            if case["comps"][inp["src"][0]]["kind"] == "T" and rng.random() < p:
+                inp["cbin"] = True
+    return case
+
+
+# ----------------------------------------------------------------------------------------------
+# push-based components WITH outputs (kind "R", schedlib.RComp): outside the Coq model (its components are time-stepped
+# or pull-based); judged by the property monitors only
+# ----------------------------------------------------------------------------------------------
+def has_push_comp(case):
+    return any(c["kind"] == "R" for c in case.get("comps", []))
+
+
+def gen_push_merger(rng):
+    """a push-based merger R (CallbackInputs in, ordinary Output out) between time components: on a ring
+    A >> R >> B (>> C) >> A with an optional tail T >> R, the link R >> B undelayed (must be reported as circular
+    coupling) or through a sufficient DelayFixed (must complete); or on a plain path A >> R >> B with a second source"""
+    unit = rng.choice(UNITS)
+    def steps():
+        return [unit * rng.choice([1, 2, 3, 4, 5]) for _ in range(rng.choice([1, 1, 2, 3]))]
+    ring = rng.random() < 0.6
+    nring = rng.choice([2, 2, 3]) if ring else 2
+    names = list(range(nring))           # A=0, B=1, (C=2)
+    comps = [{"kind": "T", "start": 0, "steps": steps(), "initpull": False, "nout": 1, "inputs": []} for _ in names]
+    tail = rng.random() < 0.75
+    r_inputs = [{"src": [0, 0], "chain": [["pass"]] if rng.random() < 0.3 else []}]
+    if tail:
+        comps.append({"kind": "T", "start": 0, "steps": [unit * rng.choice([1, 1, 7, 100])], "initpull": False,
+                      "nout": 1, "inputs": []})
+        r_inputs.append({"src": [len(comps) - 1, 0], "chain": []})
+        if rng.random() < 0.5:
+            r_inputs.reverse()
+    comps.append({"kind": "R", "nout": 1, "inputs": r_inputs})
+    r = len(comps) - 1
+    need = sum(max(c["steps"]) for c in comps[:nring])
+    delayed = (rng.random() < 0.5) if ring else (rng.random() < 0.3)
+    comps[1]["inputs"].append({"src": [r, 0], "chain": [["fixed", need]] if delayed else []})
+    if ring:
+        for k in range(1, nring):
+            comps[(k + 1) % nring]["inputs"].append({"src": [k, 0], "chain": []})
+    order = list(range(len(comps)))
+    rng.shuffle(order)
+    case = {"comps": permute(comps, order), "end": unit * rng.choice([12, 20, 30]),
+            "push_merger": {"ring": ring, "delayed": delayed}}
+    return case
+
+
+def monitor_push_merger(case, obs):
+    comps = case["comps"]
+    pm = case["push_merger"]
+    if obs["phase"] != "run":
+        return f"connect phase failed with {obs['outcome']}"
+    if pm["ring"] and not pm["delayed"]:
+        if obs["outcome"] != "CircularCoupling":
+            return (f"an undelayed ring through the push-based component is not reported as circular coupling "
+                    f"(outcome {obs['outcome']}, {sum(1 for e in obs['events'] if e[0] == 'U')} updates were made)")
+        return None
+    pub = {k: c["start"] for k, c in enumerate(comps) if c["kind"] == "T"}
+    rpub = {k: obs["t0"] for k, c in enumerate(comps) if c["kind"] == "R"}
+    cur = None
+    for e in obs["events"]:
+        if e[0] == "U":
+            pub[e[1]] = e[2]
+            cur = e
+        elif e[0] == "R":
+            rpub[e[1]] = e[2]
+        elif e[0] == "S" and comps[e[1]]["kind"] == "T":
+            if e[3] > pub[e[1]]:
+                return f"output C{e[1]}.o{e[2]} is asked for {e[3]} but has published only up to {pub[e[1]]} (during {cur})"
+        elif e[0] == "S" and comps[e[1]]["kind"] == "R":
+            if e[3] > rpub[e[1]]:
+                return (f"output C{e[1]}.o{e[2]} of the push-based component is asked for {e[3]} but has published only "
+                        f"up to {rpub[e[1]]} (during {cur})")
+            for j, inp in enumerate(comps[e[1]]["inputs"]):
+                s = inp["src"][0]
+                if pub[s] < e[3]:
+                    return (f"{cur}: the push-based component C{e[1]} is read for {e[3]} although its source C{s} "
+                            f"(input i{j}) has published only up to {pub[s]}")
+    if obs["outcome"] != "ok":
+        return f"run ended with {obs['outcome']}"
+    for k, c in enumerate(comps):
+        if c["kind"] == "T" and obs["times"][k] < case["end"]:
+            return f"C{k} ended at {obs['times'][k]} before the end time {case['end']}"
+    return None
+
+
+def with_lazy_time(case):
+    """every time component learns its starting time only in the connect phase (finam's CsvReader: first row of the
+    file); the composition can then only be started with an explicit start time.  Same schedule as with known times."""
+    for c in case["comps"]:
+        if c["kind"] == "T":
+            c["lazytime"] = True
+    return case
+
+
+def gen_connect_chain(rng):
+    """a chain of 3-5 time components, each needing its predecessor's initial data in the connect phase; the components
+    carry the SAME name (nobody called with_name: finam names a component after its class)"""
+    unit = rng.choice(UNITS)
+    n = rng.choice([3, 4, 4, 5])
+    comps = []
+    for k in range(n):
+        # "pap": the initial data is published only once the own initial pull succeeded (as a CallbackComponent does)
+        comps.append({"kind": "T", "start": 0, "steps": [unit * rng.choice([1, 2, 3])], "initpull": k > 0, "nout": 1,
+                      "pap": k > 0 and rng.random() < 0.8,
+                      "inputs": [] if k == 0 else [{"src": [k - 1, 0], "chain": [["pass"]] if rng.random() < 0.3 else []}]})
+    order = list(range(n))
+    rng.shuffle(order)
+    return {"comps": permute(comps, order), "end": unit * rng.choice([4, 6, 9]), "samename": True}
